@@ -153,7 +153,7 @@ func runC14(c *Ctx) {
 				}
 			}
 		}
-		c.floor(rule, nSrc, 9, "SQL statements on the source handle")
+		c.floor(rule, nSrc, 6, "SQL statements on the source handle")
 		c.floor(rule, nOther, 2, "SQL statements on restore outputs")
 	}
 
@@ -495,7 +495,6 @@ func derivesFromSourcePath(v ssa.Value) bool {
 	return w(v, 0)
 }
 
-
 // isSourcePathExact: v is the source database path itself (db.path / db.Path()),
 // not a path built from it (-wal, -shm, meta directory).
 func isSourcePathExact(v ssa.Value) bool {
@@ -520,7 +519,6 @@ func isSourcePathExact(v ssa.Value) bool {
 	}
 	return true
 }
-
 
 // c14Probe (R5): the directory watcher probes a file's header by opening and closing
 // it.  On a database litestream already replicates, that close drops the POSIX
